@@ -224,6 +224,7 @@ func GenDefault(t *rapid.T) DefaultCase {
 	if rapid.IntRange(0, 2).Draw(t, "has-preset") == 0 {
 		scheme := rapid.SampledFrom([]string{"Preset", "Digest", "Token", "MAC", "BearerX", "Negotiate", "x"}).Draw(t, "preset-scheme")
 		c.Preset = kit.BStr(headerSafe(scheme + " " + genSecret(t, "preset")))
+		c.PresetName = rapid.SampledFrom([]string{"", "", "authorization", "AUTHORIZATION", "AuthoriZation"}).Draw(t, "preset-name")
 	}
 	if rapid.IntRange(0, 2).Draw(t, "rotated") == 0 {
 		r := genCred(t, "R", false)
